@@ -77,7 +77,7 @@ TCall ==
      CASE Ev.cmd = "Init" /\ t.t = "Start" -> HStart(K)
        [] Ev.cmd = "Init" /\ t.t = "Handshake" -> t.good /\ HHandshake(K)
        [] Ev.cmd = "Choke" -> t.t = "Choke" /\ HChoke(K)
-       [] Ev.cmd = "Unchoke" -> t.t = "Unchoke" /\ h[K].ch /\ HUnchoke(K)
+       [] Ev.cmd = "Unchoke" -> (t.t = "Unchoke" /\ h[K].ch /\ HUnchoke(K)) \/ (t.t = "BroadReleased" /\ HBroadReleased(K) /\ h'[K].wait)
        [] Ev.cmd = "Interested" -> t.t = "Interested" /\ HInterested(K)
        [] Ev.cmd = "NotInterested" -> t.t = "NotInterested" /\ HNotInterested(K)
        [] Ev.cmd = "Have" -> t.t = "Have" /\ HHave(K, t.p)
@@ -130,6 +130,7 @@ TEnd ==
             [] t.t = "Piece" -> Checked(HPiece(K, t.p, t.b, t.good) /\ ~h'[K].wait /\ h'[K].alive)
             [] t.t = "Request" -> Checked(h[K].tx = t.p /\ t.ok /\ HRequest(K, t.p, TRUE))
             [] t.t = "BroadHave" -> Checked(HBroadHave(K) /\ ~h'[K].wait)
+            [] t.t = "BroadReleased" -> Checked(HBroadReleased(K) /\ ~h'[K].wait)
             [] t.t = "BroadState" -> Checked(HBroadState(K) /\ Head(bq[K]).v = t.v)
             [] t.t = "TickKA" -> Checked(HTickKA(K) /\ h'[K].alive)
             [] OTHER -> FALSE)
